@@ -2,9 +2,9 @@ package main
 
 import (
 	"fmt"
-	"sort"
 	"go/ast"
 	"go/token"
+	"sort"
 	"strconv"
 	"strings"
 )
@@ -409,6 +409,12 @@ func genExtracted(b *strings.Builder, root, authp, httpio *pkg) {
 	w("Definition skeleton_processError : list string := %s.", strList(positionalSkeleton(root, "rpcFunc", "processError", []string{"reflect."})))
 	w("Definition skeleton_processFuncOut : list string := %s.", strList(append(decisionOrder(root, "", "processFuncOut"), positionalSkeleton(root, "", "processFuncOut", []string{"Out", "NumOut"})...)))
 	w("Definition skeleton_param_marshal : list string := %s.", strList(append(decisionOrder(root, "param", "MarshalJSON"), positionalSkeleton(root, "param", "MarshalJSON", []string{"json."})...)))
+	w("(* single-request clients and the generated function: a response is used only if it carries the request's id *)")
+	w("Definition response_id_checks : list string := %s.", strList(idChecks(root)))
+	w("(* the reverse client reads the server's formatter when a connection is upgraded, not when the option is applied *)")
+	w("Definition reverse_formatter_read_per_connection : bool := %s.", coqBool(reverseFormatterReadPerConnection(root)))
+	w("(* the redial goroutine installs the keepalive handlers on the connection it has just swapped in *)")
+	w("Definition redial_sets_up_pings_after_swap : bool := %s.", coqBool(assignBeforeCallDeep(root, "tryReconnect", "c.conn", "c.setupPings")))
 	w("(* keepalive *)")
 	w("Definition nextMessage_resets_before_read : bool := %s.", coqBool(callBefore(root, "nextMessage", "c.resetReadDeadline", "c.conn.NextReader")))
 	w("Definition ping_handler_answers_pong : bool := %s.", coqBool(pingHandlerPongs(root)))
@@ -1068,4 +1074,97 @@ func exprString3(e ast.Expr) string {
 		return "map[" + exprString3(v.Key) + "]" + exprString3(v.Value)
 	}
 	return exprString2(e)
+}
+
+// like assignBeforeCall, but looks inside function literals too (the redial goroutine)
+func assignBeforeCallDeep(p *pkg, fn, lhs, callee string) bool {
+	fd := p.anyFunc(fn)
+	if fd == nil {
+		die("%s not found", fn)
+	}
+	var apos, cpos token.Pos
+	ast.Inspect(fd.Body, func(n ast.Node) bool {
+		switch v := n.(type) {
+		case *ast.AssignStmt:
+			for _, l := range v.Lhs {
+				if exprString(l) == lhs && apos == 0 {
+					apos = v.Pos()
+				}
+			}
+		case *ast.CallExpr:
+			if exprString(v.Fun) == callee && cpos == 0 {
+				cpos = v.Pos()
+			}
+		}
+		return true
+	})
+	return apos != 0 && cpos != 0 && apos < cpos
+}
+
+// conditions of if statements that compare a response id, with the function they stand in
+func idChecks(p *pkg) []string {
+	var out []string
+	var names []string
+	for n := range p.files {
+		names = append(names, n)
+	}
+	sort.Strings(names)
+	for _, fname := range names {
+		f := p.files[fname]
+		for _, d := range f.Decls {
+			fd, ok := d.(*ast.FuncDecl)
+			if !ok || fd.Body == nil {
+				continue
+			}
+			ast.Inspect(fd.Body, func(n ast.Node) bool {
+				if is, ok := n.(*ast.IfStmt); ok {
+					c := exprString2(is.Cond)
+					if strings.Contains(c, "resp.ID != ") {
+						out = append(out, fd.Name.Name+": "+c)
+					}
+				}
+				return true
+			})
+		}
+	}
+	return out
+}
+
+// in WithReverseClient: is the reverse client's formatter read inside the per-connection builder (the function literal
+// assigned to c.reverseClientBuilder), i.e. when a connection is upgraded, not when the option is applied
+func reverseFormatterReadPerConnection(p *pkg) bool {
+	fd := p.anyFunc("WithReverseClient")
+	if fd == nil {
+		die("WithReverseClient not found")
+	}
+	ok := false
+	ast.Inspect(fd.Body, func(n ast.Node) bool {
+		as, isAs := n.(*ast.AssignStmt)
+		if !isAs || len(as.Lhs) != 1 || len(as.Rhs) != 1 || exprString(as.Lhs[0]) != "c.reverseClientBuilder" {
+			return true
+		}
+		fl, isFl := as.Rhs[0].(*ast.FuncLit)
+		if !isFl {
+			return true
+		}
+		ast.Inspect(fl.Body, func(m ast.Node) bool {
+			if se, isSel := m.(*ast.SelectorExpr); isSel && exprString(se) == "c.methodNameFormatter" {
+				ok = true
+			}
+			return true
+		})
+		return false
+	})
+	// and nowhere outside that literal
+	outside := false
+	ast.Inspect(fd.Body, func(n ast.Node) bool {
+		if as, isAs := n.(*ast.AssignStmt); isAs && len(as.Lhs) == 1 && exprString(as.Lhs[0]) == "c.reverseClientBuilder" {
+			return false
+		}
+		if se, isSel := n.(*ast.SelectorExpr); isSel && exprString(se) == "c.methodNameFormatter" {
+			outside = true
+		}
+		return true
+	})
+	return ok && !outside
 }
